@@ -10,7 +10,7 @@ import emitlock_part
 
 # C03lock: no operator emits while holding a lock its own teardown takes (regenerated EmitLocks table) — the premise of "an Unsubscribe
 # from inside a delivered callback returns" for the operators that own a lock
-LEAN_MODULES = C06_ops.LEAN_MODULES + emitlock_part.LEAN_MODULES + (C06_kernel.LEAN_MODULES if C06_kernel else [])
+LEAN_MODULES = C06_ops.LEAN_MODULES + emitlock_part.LEAN_MODULES + (C06_kernel.LEAN_MODULES if C06_kernel else []) + ['C06lock']
 
 MANIFEST = dict(
     text="Operator half, proved in Lean for every machine (chains are machines), raw script and k: Unsubscribe from inside the k-th delivered callback cuts delivery exactly there "
@@ -19,15 +19,41 @@ MANIFEST = dict(
          "asynchronous sources, and returns iff the trace has a terminal (collect_exact, collect_sync_async, collect_returns_iff). Tie: kinds cutin (self-unsubscribe in the k-th callback, "
          "another goroutine unsubscribing while a callback is in progress, returned-handle variant; every catalogue operator and random chains), collect (synchronous and goroutine-driven probes; "
          "Wait/Collect must not return while the terminal callback is in progress) compared with equality against the model, plus independent oracles on the implementation. "
-         "Kernel half (status monotone, cut under any schedule, IsClosed/Wait truthful): see the kernel part when present in this build.",
+         "Kernel half (status monotone, cut under any schedule, IsClosed/Wait truthful): see the kernel part when present in this build. "
+         "Teardowns run outside the producer lock, for the subscriber programs REGENERATED on this run and any schedule (C06lock.regenerated_teardowns_outside_mu, through the decidable lock-discipline "
+         "checker and its soundness theorem, independent of the program-equality tie); kind=tdwait runs the 'stop the second producer and wait for it' teardown on a stream that ends by itself "
+         "(plain, through Map / a chain / Merge, under Collect) and requires that nothing hangs.",
     technique="Lean 4 proof (simulation between the cut-in run and the undisturbed run; Collect as a function of the gated trace) + differential correspondence",
     ref='5/C06')
 
 
+def tdwait_search(ctx, out):
+    """C06lock no longer checks: the regenerated subscriber programs run a teardown (or call another method) while holding the producer lock"""
+    if 'C06lock' not in out:
+        return False
+    bad = getattr(ctx, 'tdwait_bad', [])
+    if not bad:
+        rows = R.run_kind(ctx, 'tdwait', tier='thorough', shards=4)
+        bad = [(c, g, l) for c, g, l in rows if g.split(None, 2)[2:] != l.split(None, 2)[2:]]
+    if bad:
+        c, g, l = bad[0]
+        ctx.violation(f'C06: the subscriber runs its teardowns under the producer lock: a stream that ended by itself hangs in its teardown ({len(bad)} cases)',
+                      'theorem Ro.C06lock.regenerated_programs_wellLocked no longer holds (RoGen.Kernel.table is rejected by the lock-discipline checker)\n'
+                      f'# concrete run: two producers on a safe subscriber, teardown = stop the first and wait until it has left\n{c}\n# implementation: {g}\n# model: {l}\n')
+        return True
+    return False
+
+
 def check(ctx):
+    ctx.tdwait_bad = []
+    trows = R.run_kind(ctx, 'tdwait', shards=4)
+    for c, g, l in trows:
+        if g.split(None, 2)[2:] != l.split(None, 2)[2:]:
+            ctx.tdwait_bad.append((c, g, l))
+    R.compare(ctx, trows, proj_all, 'C06 a stream that ends by itself runs its teardowns outside the producer lock (teardown stops a second producer and waits for it)', nontrivial=lambda c, gd: True, recheck=1)
     o = C06_ops.parts(ctx)
     el = emitlock_part.parts(ctx)
-    rules, assumptions, searches, extra = [o['rule_part'], el['rule_part']], [], [o.get('search'), el['search']], {}
+    rules, assumptions, searches, extra = [o['rule_part'], el['rule_part'], 'kind=tdwait: 5 pipelines x {C,E} x repetitions, equality with the constant model line (hang=0 wait=returned)'], [], [tdwait_search, o.get('search'), el['search']], {}
     if C06_kernel:
         k = C06_kernel.parts(ctx)
         rules.append(k.get('rule', ''))
